@@ -214,6 +214,19 @@ pub fn guard<T>(f: impl FnOnce() -> T) -> Result<T, String> {
     }
 }
 
+/// Run `f` on its own thread, catching panics, and give up after `secs` seconds: a call that does not return is
+/// reported as Err (the abandoned thread keeps spinning until the process exits, which `Report::finish` forces).
+pub fn guard_timeout<T: Send + 'static>(secs: u64, f: impl FnOnce() -> T + Send + 'static) -> Result<T, String> {
+    let (tx, rx) = std::sync::mpsc::channel();
+    std::thread::spawn(move || {
+        let _ = tx.send(guard(f));
+    });
+    match rx.recv_timeout(std::time::Duration::from_secs(secs)) {
+        Ok(r) => r,
+        Err(_) => Err(format!("the call did not return within {} s (non-terminating)", secs)),
+    }
+}
+
 /// Marker payload used by harness callbacks to unwind out of a subject that
 /// exceeded its evaluation budget.
 pub const BUDGET: &str = "__verif_budget_exhausted__";
